@@ -79,3 +79,31 @@ def powi(a, b):
     if recip:
         return math.copysign(math.inf, r) if r == 0 else 1.0 / r
     return r
+
+
+def libm(name, *args):
+    """C's libm functions Rust's f64 methods forward to (`powf` is `pow`), with their IEEE results where Python raises"""
+    import math
+    a = args[0]
+    if name == "powf":
+        b = args[1]
+        try:
+            return math.pow(a, b)
+        except OverflowError:
+            neg = a < 0 and b == math.floor(b) and math.fmod(abs(b), 2.0) == 1.0
+            return -math.inf if neg else math.inf
+        except (ValueError, ZeroDivisionError):
+            if a == 0 and b < 0:
+                odd = b == math.floor(b) and math.fmod(abs(b), 2.0) == 1.0
+                return math.copysign(math.inf, a) if odd else math.inf
+            return math.nan
+    if name == "sqrt":
+        return math.nan if a < 0 else (a if math.isnan(a) else math.sqrt(a))
+    try:
+        return {"exp": math.exp, "ln": math.log, "log10": math.log10, "log2": math.log2}[name](a)
+    except OverflowError:
+        return math.inf
+    except (ValueError, KeyError):
+        if name in ("ln", "log10", "log2") and a == 0:
+            return -math.inf
+        return math.nan if name != "exp" else None
